@@ -186,6 +186,30 @@ class Ctx:
                 res += r
         return sorted(res)
 
+    def coq_codes(self, cases, fn, imports=(), preamble="", shard=250, timeout=900, label="codes"):
+        """Like coq_failing but `fn : case -> N`; returns the list of codes, one per case (0 = agreement)."""
+        shards = [(i, cases[i:i + shard]) for i in range(0, len(cases), shard)]
+        self._case_files += 1
+        tag = self._case_files
+
+        def one(arg):
+            base, cs = arg
+            body = preamble + "\nDefinition cs :=\n [ %s ].\n" % "\n ; ".join(cs)
+            body += "Eval vm_compute in (List.map (%s) cs).\n" % fn
+            out = self.coq_run(body, imports, name="%s_%d_%d" % (label, tag, base), timeout=timeout)
+            seg = out.split("=", 1)[1] if "=" in out else ""
+            seg = seg.rsplit(":", 1)[0]
+            codes = [int(x) for x in re.findall(r"\d+", seg)]
+            if len(codes) != len(cs):
+                raise CoqError("expected %d codes, got %d: %s" % (len(cs), len(codes), out[:500]))
+            return codes
+
+        res = []
+        with ThreadPoolExecutor(max_workers=8) as ex:
+            for r in ex.map(one, shards):
+                res += r
+        return res
+
     def coq_show(self, term, imports=(), preamble="", timeout=300):
         """Evaluate one term and return Coq's printed value (used only to put the model's answer in a replay)."""
         try:
